@@ -446,6 +446,9 @@ pub fn gen_content(rng: &mut Rng, o: &GenOpts) -> RefArchive {
     if rng.chance(1, 3) {
         names.push(crate::refs::strings::gen_sjis_nonempty(rng, 6));
     }
+    if rng.chance(1, 6) {
+        names.push(String::new()); // the empty name is a legal (NUL-free) label
+    }
     if rng.chance(1, 4) {
         // a label name equal to a string
         let s = rng.pick(&pool).clone();
